@@ -684,7 +684,7 @@ func (s *DB) getHistoricRootsAndNodes(
 	for parent, children := range parentToChildren {
 		tooNew := false
 		for _, childRoot := range children {
-			if childRoot.Created == nil || childRoot.Created.After(olderThan) {
+			if childRoot.Created == nil || !childRoot.Created.Before(olderThan) {
 				tooNew = true
 				break
 			}
